@@ -75,23 +75,22 @@ func main() {
 		fatal("NewServer: %v", err)
 	}
 	s.GetNsMgr().SetIClusterInfo(&clusterInfo{syncs: c.SnapSyncs})
-	if _, err := s.InitKVNamespace(c.ReplicaID, &c.Namespace, false); err != nil {
+	// the node object is kept: the manager's lookups hide a namespace that is not ready
+	nn, err := s.InitKVNamespace(c.ReplicaID, &c.Namespace, false)
+	if err != nil {
 		fatal("InitKVNamespace: %v", err)
 	}
 	mux := http.NewServeMux()
 	mux.HandleFunc("/status", func(w http.ResponseWriter, r *http.Request) {
-		nn := s.GetNamespaceFromFullName(c.Namespace.Name)
-		if nn == nil {
-			http.Error(w, "no namespace", 500)
-			return
-		}
-		lead := uint64(0)
-		if lm := nn.Node.GetLeadMember(); lm != nil {
-			lead = lm.ID
-		}
+		// a namespace whose Start failed (the error is dropped by NamespaceMgr.Start, as in production)
+		// stays not-ready for ever; its raft node must not be touched then
 		ready := nn.IsReady()
+		lead := uint64(0)
 		full := false
 		if ready {
+			if lm := nn.Node.GetLeadMember(); lm != nil {
+				lead = lm.ID
+			}
 			full = nn.IsNsNodeFullReady(true)
 		}
 		fmt.Fprintf(w, `{"ready":%v,"full_ready":%v,"is_lead":%v,"lead":%d,"applied":%d,"snap_index":%d,"pid":%d}`,
@@ -99,11 +98,6 @@ func main() {
 	})
 	mux.HandleFunc("/transfer", func(w http.ResponseWriter, r *http.Request) {
 		to, _ := strconv.ParseUint(r.URL.Query().Get("to"), 10, 64)
-		nn := s.GetNamespaceFromFullName(c.Namespace.Name)
-		if nn == nil {
-			http.Error(w, "no namespace", 500)
-			return
-		}
 		err := nn.Node.TransferLeadership(to)
 		fmt.Fprintf(w, "%v", err)
 	})
